@@ -78,8 +78,9 @@ Lemma ex_cyclic_applicable :
 Proof.
   split; [|split; [|split]].
   - left. cbn. split; [auto|]. split; [auto|]. right. apply t_step. exists ["g0"]. cbn. auto.
-  - right. eexists. exists []. split; [left; reflexivity|]. split; [cbn; auto|]. split.
+  - right. eexists. exists []. split; [left; reflexivity|]. split; [cbn; auto|]. split; [|split].
     + cbn. intros [E | []]; discriminate.
+    + reflexivity.
     + right. apply t_step. exists ["g0"]. cbn. auto.
   - eexists. exists ["g0"]. split; [reflexivity|]. split; [cbn; auto|]. left; reflexivity.
   - split.
